@@ -68,6 +68,14 @@ def base_table(draw):
             # bias towards the first (mostly valid) half so that all-valid rows are common
             row[nm] = draw(st.sampled_from(pool[:max(2, len(pool) // 2)] if draw(st.integers(0, 2)) else pool))
         rows.append(row)
+    if gen.rare(draw, 25):
+        # more than 1000 rows whose values are already native (nothing to convert), followed by the drawn rows
+        head = {}
+        for nm, ti in zip(names, targets):
+            t = TARGETS[ti][0].get('type', 'any')
+            head[nm] = {'integer': 5, 'number': 3, 'boolean': True, 'date': datetime.date(2020, 2, 29), 'year': 2020,
+                        'string': 'abc', 'array': [1], 'datetime': None}.get(t, 'abc')
+        rows = [dict(head) for _ in range(draw(st.integers(1001, 1040)))] + rows
     # schema-level missingValues of the resource: listed strings read as null for every field
     missing = draw(st.sampled_from([None, None, ['', 'n/a', '-'], ['NA']]))
     if missing:
